@@ -6,6 +6,7 @@
 mod crash;
 mod csvrt;
 mod etrade;
+mod fe;
 mod fmv;
 mod gen;
 mod ledger;
@@ -228,6 +229,39 @@ fn main() {
                 writeln!(w, "{}", serde_json::to_string(r).unwrap()).unwrap();
             }
             println!("fmv cases {}", recs.len());
+        }
+        "fe-run" => {
+            // --in: abstract front-end inputs emitted by MC_FrontEnd; --gen N: seeded random products and byte-level damage
+            let out = arg(&args, "--out").expect("--out");
+            let seed: u64 = arg(&args, "--seed").and_then(|s| s.parse().ok()).unwrap_or(1);
+            let scratch = std::path::PathBuf::from(arg(&args, "--scratch").expect("--scratch"));
+            std::fs::create_dir_all(&scratch).unwrap();
+            let mut cases: Vec<(u64, serde_json::Value)> = Vec::new();
+            if let Some(inp) = arg(&args, "--in") {
+                for (n, line) in std::io::BufReader::new(std::fs::File::open(&inp).unwrap()).lines().enumerate() {
+                    let line = line.unwrap();
+                    if !line.trim().is_empty() {
+                        cases.push((n as u64, serde_json::from_str(&line).unwrap()));
+                    }
+                }
+            }
+            if let Some(g) = arg(&args, "--gen") {
+                let g: u64 = g.parse().unwrap();
+                for k in 0..g {
+                    cases.push((1_000_000 + k, fe::gen_fe_case(seed, k)));
+                }
+            }
+            if args.iter().any(|a| a == "--etrade-lines") {
+                for (k, c) in fe::etrade_line_cases().into_iter().enumerate() {
+                    cases.push((2_000_000 + k as u64, c));
+                }
+            }
+            let recs = par_map(&cases, threads, |(n, c)| fe::fe_record(c, *n, &scratch));
+            let mut w = BufWriter::new(std::fs::File::create(out).unwrap());
+            for r in &recs {
+                writeln!(w, "{}", serde_json::to_string(r).unwrap()).unwrap();
+            }
+            println!("front-end runs {}", recs.len());
         }
         "qt-run" => {
             // --in: sheets emitted by MC_Questrade; --gen N: seeded random exports instead
